@@ -61,6 +61,27 @@ fn run_one(paths: &[Entry], prefix: &[usize], fine: bool) -> (Run, Obs) {
     run_one_at(paths, prefix, fine, false)
 }
 
+thread_local! {
+    /// Scenario switch: task i makes its first use of its *own* fresh keyspace ("fresh" for
+    /// even i, "fresh-b" for odd i) instead of all tasks sharing one name.
+    static DISTINCT_NAMES: std::cell::Cell<bool> = const { std::cell::Cell::new(false) };
+}
+
+fn ks_of(task: usize) -> &'static str {
+    if DISTINCT_NAMES.with(|d| d.get()) && task % 2 == 1 {
+        "fresh-b"
+    } else {
+        FRESH
+    }
+}
+
+fn run_one_distinct(paths: &[Entry], prefix: &[usize], fine: bool) -> (Run, Obs) {
+    DISTINCT_NAMES.with(|d| d.set(true));
+    let r = run_one_at(paths, prefix, fine, false);
+    DISTINCT_NAMES.with(|d| d.set(false));
+    r
+}
+
 /// `sweep`: the keyspace already exists (one document, one tombstone) and the group's
 /// hourly tombstone sweep (`keyspace_purge_task`, the real background task) has just come
 /// due when the tasks start, so its steps interleave with theirs.
@@ -99,6 +120,7 @@ fn run_one_at(paths: &[Entry], prefix: &[usize], fine: bool, sweep: bool) -> (Ru
             .enumerate()
             .map(|(i, path)| {
                 let id = i as u64 + 1;
+                let my_ks = ks_of(i);
                 let acked = acked.clone();
                 let errors = errors.clone();
                 let group = node.group.clone();
@@ -118,7 +140,7 @@ fn run_one_at(paths: &[Entry], prefix: &[usize], fine: bool, sweep: bool) -> (Ru
                     }
                     let res: Result<bool, String> = match path {
                         Entry::Direct => {
-                            let ks = group.get_or_create_keyspace(FRESH).await;
+                            let ks = group.get_or_create_keyspace(my_ks).await;
                             let doc = Document::new(id, clock.get_time().await, vec![id as u8]);
                             ks.send(ec::Set { source: 0, doc, ctx: None, _marker: PhantomData::<MemStore> })
                                 .await
@@ -126,18 +148,18 @@ fn run_one_at(paths: &[Entry], prefix: &[usize], fine: bool, sweep: bool) -> (Ru
                                 .map_err(|e| e.to_string())
                         },
                         Entry::Put => store
-                            .put(FRESH, id, vec![id as u8], Consistency::None)
+                            .put(my_ks, id, vec![id as u8], Consistency::None)
                             .await
                             .map(|_| true)
                             .map_err(|e| e.to_string()),
                         Entry::Rpc => {
                             let mut c = ec::ConsistencyClient::<MemStore>::new(peer_clock.clone(), Channel::connect(node_addr(1)));
                             let doc = Document::new(id, peer_clock.get_time().await, vec![id as u8]);
-                            c.put(FRESH, doc, 2, node_addr(2)).await.map(|_| true).map_err(|e| e.to_string())
+                            c.put(my_ks, doc, 2, node_addr(2)).await.map(|_| true).map_err(|e| e.to_string())
                         },
                         Entry::GetState => {
                             let mut c = ec::ReplicationClient::<MemStore>::new(peer_clock.clone(), Channel::connect(node_addr(1)));
-                            c.get_state(FRESH).await.map(|_| false).map_err(|e| e.to_string())
+                            c.get_state(my_ks).await.map(|_| false).map_err(|e| e.to_string())
                         },
                         Entry::Repair => unreachable!(),
                     };
@@ -155,17 +177,28 @@ fn run_one_at(paths: &[Entry], prefix: &[usize], fine: bool, sweep: bool) -> (Ru
         obs.acked = acked.borrow().clone();
         obs.acked.sort();
         obs.errors = errors.borrow().clone();
-        match node.set_of(FRESH).await {
-            Ok(set) => {
-                obs.in_final_set = (1..=paths.len() as u64).chain([PEER_DOC]).filter(|id| set.get(id).is_some()).collect();
-                obs.earlier_content_lost = sweep && set.get(&PRE_DOC).is_none();
-            },
-            Err(e) => obs.errors.push(e),
+        let mut names: Vec<&'static str> = (0..paths.len()).map(ks_of).collect();
+        names.sort();
+        names.dedup();
+        for name in names {
+            let mine = |id: u64| id == PEER_DOC || id == PRE_DOC || (id >= 1 && id <= paths.len() as u64 && ks_of(id as usize - 1) == name);
+            match node.set_of(name).await {
+                Ok(set) => {
+                    obs.in_final_set.extend((1..=paths.len() as u64).chain([PEER_DOC]).filter(|id| mine(*id) && set.get(id).is_some()));
+                    if name == FRESH {
+                        obs.earlier_content_lost = sweep && set.get(&PRE_DOC).is_none();
+                    }
+                },
+                Err(e) => obs.errors.push(e),
+            }
+            match read_rows(node.storage.as_ref(), name).await {
+                Ok(rows) => obs.in_storage.extend(rows.iter().filter(|(k, (_, d))| d.is_some() && **k != PRE_DOC).map(|(k, _)| *k)),
+                Err(e) => obs.errors.push(e),
+            }
         }
-        match read_rows(node.storage.as_ref(), FRESH).await {
-            Ok(rows) => obs.in_storage = rows.iter().filter(|(k, (_, d))| d.is_some() && **k != PRE_DOC).map(|(k, _)| *k).collect(),
-            Err(e) => obs.errors.push(e),
-        }
+        obs.in_final_set.sort();
+        obs.in_final_set.dedup();
+        obs.in_storage.sort();
         drop(peer);
         (run, obs)
     };
@@ -188,6 +221,17 @@ fn judge_fine(paths: &[Entry], run: &Run, obs: &Obs, st: &mut Stats) {
     judge(paths, run, obs, st);
     for f in st.found.iter_mut().skip(before) {
         f.replay.put("fine_grained", true);
+    }
+}
+
+fn judge_distinct(paths: &[Entry], fine: bool, run: &Run, obs: &Obs, st: &mut Stats) {
+    let before = st.found.len();
+    judge(paths, run, obs, st);
+    st.inc("distinct_name_executions");
+    for f in st.found.iter_mut().skip(before) {
+        f.key = format!("{}/two-fresh-keyspaces", f.key);
+        f.replay.put("fine_grained", fine);
+        f.replay.put("distinct_names", true);
     }
 }
 
@@ -301,6 +345,26 @@ pub fn run(tier: Tier) -> i32 {
         summary.prefix_misfits += sum.prefix_misfits;
         summary.capped |= sum.capped;
     }
+    // concurrent first uses of two *different* fresh keyspaces (registering one must not lose
+    // the other; added after the seeded change C18-f): pairs over all schedules, and
+    // fine-grained with the deviation bound
+    let writers = [Entry::Direct, Entry::Put, Entry::Rpc];
+    for a in writers {
+        for b in [Entry::Direct, Entry::Put, Entry::Rpc, Entry::GetState] {
+            let paths = vec![a, b];
+            for fine in [false, true] {
+                let cfg = ExploreCfg { max_deviations: if fine { Some(fine_bound) } else { None }, max_executions: 2_000_000, determinism_check_every: 53 };
+                let (st, sum) = e2::explore(&cfg, |p| run_one_distinct(&paths, p, fine), |st, run, obs| judge_distinct(&paths, fine, run, obs, st));
+                total.merge(st);
+                summary.executions += sum.executions;
+                summary.max_steps = summary.max_steps.max(sum.max_steps);
+                summary.deadlocks += sum.deadlocks;
+                summary.nondeterministic += sum.nondeterministic;
+                summary.prefix_misfits += sum.prefix_misfits;
+                summary.capped |= sum.capped;
+            }
+        }
+    }
     for (paths, bound) in &scenarios {
         let cfg = ExploreCfg { max_deviations: *bound, max_executions: 2_000_000, determinism_check_every: 53 };
         let (st, sum) = e2::explore(&cfg, |p| run_one(paths, p, false), |st, run, obs| judge(paths, run, obs, st));
@@ -319,6 +383,7 @@ pub fn run(tier: Tier) -> i32 {
     let schedules = total.distinct_count("schedules");
     let outcomes = total.distinct_count("outcomes");
     let sweep_execs = total.get("sweep_executions");
+    let distinct_execs = total.get("distinct_name_executions");
     total.flush_into(&mut report);
     report.cover("states", schedules);
     report.cover("transitions", summary.executions * summary.max_steps.max(1) as u64);
@@ -336,6 +401,8 @@ pub fn run(tier: Tier) -> i32 {
     report.cover("max_steps_per_execution", summary.max_steps);
     report.cover("k3_deviation_bound", k3);
     report.cover("fine_grained_k2_deviation_bound", fine_bound);
+    report.cover("two_fresh_keyspaces_executions", distinct_execs);
+    report.guard(distinct_execs > 100, "the two-fresh-keyspaces scenarios did not run");
     report.cover("sweep_scenarios", sweep_scenarios.len());
     report.cover("sweep_executions", sweep_execs);
     report.guard(sweep_execs > sweep_scenarios.len() as u64 * 3, "the tombstone sweep does not interleave with the tasks");
@@ -371,6 +438,7 @@ pub fn replay(case: &J) -> i32 {
         .collect();
     let fine = case.get("fine_grained").and_then(|v| v.as_bool()).unwrap_or(false);
     let sweep = case.get("sweep").and_then(|v| v.as_bool()).unwrap_or(false);
+    DISTINCT_NAMES.with(|d| d.set(case.get("distinct_names").and_then(|v| v.as_bool()).unwrap_or(false)));
     let (run, obs) = run_one_at(&paths, &schedule, fine, sweep);
     let (run2, obs2) = run_one_at(&paths, &schedule, fine, sweep);
     if run != run2 || obs != obs2 {
